@@ -48,6 +48,11 @@ static void setup (void)
 #ifdef WIN
   /* quick tier: indices stay symbolic but inside the wrap neighbourhoods (DESIGN 5/C14) */
   __CPROVER_assume (in_window (IN.consumer, SIZE - 1) && in_window (IN.length, SIZE));
+#ifdef CSIDE
+  /* case split (the four jobs together cover the windows): consumer / length in the low or the high neighbourhood */
+  __CPROVER_assume (CSIDE ? IN.consumer >= WIN : IN.consumer < WIN);
+  __CPROVER_assume (LSIDE ? IN.length >= WIN : IN.length < WIN);
+#endif
 #endif
 #ifdef WIN
   /* only the wrap neighbourhoods can be touched when the indices are inside the windows */
